@@ -31,7 +31,7 @@ ASSUMPTIONS = [
 
 
 def examples(tier):
-    return 2400 if tier == "quick" else 24000
+    return 4000 if tier == "quick" else 32000
 
 
 @st.composite
